@@ -64,6 +64,7 @@ func (ldbw *levelDBWrapper) Has(key []byte) (bool, error) {
 	return ldbw.db.Has(key, nil)
 }
 func (ldbw *levelDBWrapper) Put(key, value []byte) error {
+	verifWrite("ldb:put")
 	return ldbw.db.Put(key, value, nil)
 }
 func (ldbw *levelDBWrapper) NewIterator(prefix []byte) StorageIterator {
